@@ -477,6 +477,16 @@ Section Frames.
   Qed.
 End Frames.
 
+(** SELFDESTRUCT zeroes the contract's balance on EVERY execution, whether or not the contract is
+    already in the suicide set (a contract that self-destructed earlier in the transaction still has
+    its code, can be called again, can have received value in between, and self-destructs again). *)
+Lemma selfdestruct_zeroes_every_time R (s : state R) self ben :
+  account_empty s self = false -> bal (op_selfdestruct s self ben) self = 0.
+Proof.
+  intros H. unfold op_selfdestruct, suicide. rewrite account_empty_add_balance, H.
+  cbn [set_bal bal]. apply upd_same.
+Qed.
+
 (** * Every program: the interpreter hypotheses of Proofs/C07.v hold for [run_of_tree] *)
 Section Programs.
   Variable R : Type.
